@@ -168,6 +168,10 @@ theorem sync_step (c : Codec) (limit : Nat) (s : SyncSt) (n : Node) (op : Op) (h
   | crashStart now sr tr =>
     refine ⟨{}, by simp only [syncObs, syncEnd, syncStep], ?_⟩
     exact ⟨fun _ => rfl, fun _ ha => by cases ha⟩
+  | stopStart now sr tr =>
+    refine ⟨{}, by simp only [syncObs, syncEnd, syncStep], ?_⟩
+    exact ⟨fun _ => rfl, fun _ ha => by cases ha⟩
+  | drop => exact ⟨s, rfl, ⟨fun p => h.att p, fun p ha hr => h.syn p ha hr⟩⟩
 
 /-! ## the files behind a damaged one -/
 
